@@ -8,6 +8,7 @@ sub-directories, proved for root notes.
 Helper lemmas live in `IweModel/Lemmas/Links.lean`.
 -/
 import IweModel.Lemmas.Links
+import IweModel.Model.Hints
 
 namespace Iwe.C05
 open Iwe
@@ -32,6 +33,68 @@ theorem backlink_counts (g : Graph) (lib : Library) (K : String) (h : Inv g lib)
     ∧ ((g.blockReferencesTo K).map g.place).Nodup ∧ ((g.inlineReferencesTo K).map g.place).Nodup := by
   exact ⟨(List.length_map _).symm, (C04.blockBacklinks_spec g lib K h).2,
     (C04.inlineBacklinks_spec g lib K h).2⟩
+
+/-! ### inlay hints (`Model/Hints.lean`: `handle_inlay_hints` and its helpers) -/
+
+/-- **the superscript of the `⎘` hint, for every count**: nothing up to one inclusion, the digit for 2‥9 (all
+different), `+` from ten on — no count panics or falls between the arms -/
+theorem number_substr_shape (n : Nat) :
+    (n ≤ 1 → Hints.numberSubstr n = "") ∧ (10 ≤ n → Hints.numberSubstr n = "+")
+    ∧ (2 ≤ n → n ≤ 9 → Hints.numberSubstr n = (["²", "³", "⁴", "⁵", "⁶", "⁷", "⁸", "⁹"] : List String).getD (n - 2) "") := by
+  refine ⟨fun h => ?_, fun h => ?_, fun h2 h9 => ?_⟩
+  · match n, h with
+    | 0, _ => rfl
+    | 1, _ => rfl
+  · match n, h with
+    | n + 10, _ => rfl
+  · match n, h2, h9 with
+    | 2, _, _ => rfl
+    | 3, _, _ => rfl
+    | 4, _, _ => rfl
+    | 5, _, _ => rfl
+    | 6, _, _ => rfl
+    | 7, _, _ => rfl
+    | 8, _, _ => rfl
+    | 9, _, _ => rfl
+
+/-- **the `‹n›` hint counts exactly the linking blocks**: it is shown iff some block links to the note inline,
+and `n` is the number of distinct places (linking note, block) — which by `inline_backlinks_exact` are exactly
+the places an independent scan of the latest documents finds -/
+theorem inline_counter_hint (g : Graph) (lib : Library) (K : String) (h : Inv g lib) :
+    Hints.refsCounterHints g K =
+      (if 0 < ((g.inlineReferencesTo K).map g.place).length
+       then [("‹" ++ toString ((g.inlineReferencesTo K).map g.place).length ++ "›", 0)] else [])
+    ∧ (∀ p, p ∈ (g.inlineReferencesTo K).map g.place ↔ p ∈ (Spec.inlineBacklinks lib K).map some)
+    ∧ ((g.inlineReferencesTo K).map g.place).Nodup := by
+  refine ⟨?_, (inline_backlinks_exact g lib K h).1, (inline_backlinks_exact g lib K h).2⟩
+  simp only [Hints.refsCounterHints, List.length_map, gt_iff_lt]
+
+/-- **every `⎘` hint belongs to a block reference of the note and counts the inclusions of its target**: the
+hints are, in document order, one per live reference node of the note that has a line range, on that node's
+first line, with the number of live block references to the same target anywhere in the library -/
+theorem block_reference_hints_spec (g : Graph) (K : String) (ids : List Nat) (hs : List Hints.Hint)
+    (hids : Hints.blockReferencesIn g K = .ok ids) (h : Hints.blockReferenceHints g K = .ok hs) :
+    hs = ids.filterMap fun id =>
+      (g.nodeLineRange id).map fun r =>
+        ("⎘" ++ Hints.numberSubstr (match Hints.refKey? g id with
+          | some k => (g.blockReferencesTo k).length
+          | none => 0), r.start) := by
+  simp only [Hints.blockReferenceHints, hids, Except.ok.injEq] at h
+  exact h.symm
+
+/-- the three groups come in a fixed order: containers (sorted, on line 0), the inline counter (line 0), then the
+block references in document order — nothing depends on the requested range -/
+theorem inlay_hints_order (g : Graph) (K : String) (cs bs : List Hints.Hint)
+    (hc : Hints.containerHints g K = .ok cs) (hb : Hints.blockReferenceHints g K = .ok bs) :
+    Hints.inlayHints g K = .ok (cs ++ Hints.refsCounterHints g K ++ bs) := by
+  simp [Hints.inlayHints, hc, hb]
+
+/-- an unknown note makes the request panic (`expect("to have key")`; answered with an error since the repair
+of finding D5) -/
+theorem inlay_hints_unknown_note (g : Graph) (K : String) (h : assocGet g.keys K = none)
+    (cs : List Hints.Hint) (hc : Hints.containerHints g K = .ok cs) :
+    Hints.inlayHints g K = .error .noKey := by
+  simp [Hints.inlayHints, hc, Hints.blockReferenceHints, Hints.blockReferencesIn, h]
 
 /-- **a block reference is recorded under the key its url resolves to from the linking note's
 directory**, `.md` ignored: the reference token of a sole-link paragraph -/
